@@ -134,7 +134,7 @@ enum Expect {
     Locale(Option<(String, Option<String>)>),
 }
 
-const SERVING_WORDS: &[&str] = &["", " servings", " cups worth", " big", " small ones", "-ish"];
+const SERVING_WORDS: &[&str] = &["", " servings", " cups worth", " big", " small ones", "-ish", "人分", "é", "½ loaves", "ª", "\u{a0}portions", "個"];
 const TAG_POOL: &[&str] = &["vegan", "quick", "", "2022", "gluten free", "vegan", " spicy ", "a", "\u{a0}soup\u{a0}", "\u{3000}", "\u{2003}tea", " soup\u{a0}", "\u{2009}"];
 const BAD_TIMES: &[&str] = &["soon", "1hour30min", "5 parsecs", "-5", "inf", "nan", "1e20", "4294967296", "99999999h", "1h4294967295m", "71582789h", "1 h 4294967295 min", "h", "10 min 5", "1.5.2 h", "1h30", "٣ h", "1h -30min", "+5 min", "2 hours -30 min", "-1 min 2 min", "1 h +5 min", "1e2 min", "0x10 min", "   ", "\t", "-0.4", "-0.49 min", "-0.2h"];
 const BAD_TIME_YAML: &[&str] = &["{prep: 10, cook: until golden}", "{prep: 10, cook: 4294967296}", "{prep: soon}", "{cook: [20]}", "{prep: 10, cook: 2 parsecs}", "[10, 20]", "{prep: -5, cook: 1}", "{prep: 1h, cook: {a: 1}}", "{}", "{foo: 1}", "{preparation: 10}", "12.5", "7.5", "{prep: 2.5, cook: 10}", "0.4", "-1", "-7", "{cook: 0.5}"];
@@ -256,13 +256,14 @@ fn render(c: &Case) -> (String, Option<String>, Expect, &'static [&'static str])
             (y.to_string(), None, Expect::Tags(None), TAG_KEYS)
         }
         Spec::NameUrl(i) => {
-            let url = "https://moms-cookbook.example/r?x=1";
+            // URLs that embed another URL (archive and redirect links) are URLs like any other
+            let url = ["https://moms-cookbook.example/r?x=1", "https://web.archive.org/web/2020/https://example.com/apple-pie", "http://go.example/?to=http://z.example/x", "ftp://files.example/r.txt", "https://a.b"][(*i as usize / 13) % 5];
             let (s, name, u): (String, Option<&str>, Option<&str>) = match i % 13 {
                 // no scheme: not a URL, so the whole string is the name
                 9 => ("://x".into(), Some("://x"), None),
                 10 => ("Mom <://x.y/z>".into(), Some("Mom <://x.y/z>"), None),
                 // several angle bracket groups: not the documented form, the whole string is the name
-                11 => (format!("Mom <{url}><{url}>"), Some("Mom <https://moms-cookbook.example/r?x=1><https://moms-cookbook.example/r?x=1>"), None),
+                11 => ("Mom <https://moms-cookbook.example/r?x=1><https://moms-cookbook.example/r?x=1>".into(), Some("Mom <https://moms-cookbook.example/r?x=1><https://moms-cookbook.example/r?x=1>"), None),
                 12 => ("Mom <https://a.b/c<d>".into(), Some("Mom <https://a.b/c<d>"), None),
                 0 => (format!("Mom's Cookbook <{url}>"), Some("Mom's Cookbook"), Some(url)),
                 1 => ("Mom <not a url>".into(), Some("Mom <not a url>"), None),
